@@ -151,8 +151,18 @@ def variant_kwargs(path, cls, rng, base):
         return kw
     cands = [p for p in cls.parameters if isinstance(getattr(cls, p, None), float) and p not in kw
              and p not in ('xmax', 'tmax', 'int_tol', 'eps_precursor_equil')]
-    if not cands:
+    # vector-valued defaults (detonator locations ...): move them a little too
+    vec = [p for p in cls.parameters if isinstance(getattr(cls, p, None), (list, tuple, np.ndarray)) and p not in kw
+           and len(np.shape(getattr(cls, p))) == 1 and np.asarray(getattr(cls, p)).dtype.kind in 'fi'
+           and name in ('Kenamond1', 'Kenamond3')]
+    if not cands and not vec:
         return None
+    if vec and (not cands or rng.random() < 0.7):
+        p = rng.choice(sorted(vec))
+        kw[p] = (np.asarray(getattr(cls, p), dtype=float) + np.array([rng.uniform(0.05, 0.3) for _ in getattr(cls, p)])).tolist()
+        if 'geometry' in kw and len(kw[p]) != kw['geometry']:
+            kw[p] = kw[p][:kw['geometry']]
+        return kw
     p = rng.choice(sorted(cands))
     kw[p] = getattr(cls, p) * (1.0 + rng.choice([-1, 1]) * rng.uniform(0.02, 0.05))
     return kw
